@@ -58,7 +58,7 @@ fn gen_body(rng: &mut Rng, depth: u32, next_id: &mut u32, top: bool) -> Vec<Valu
             4 => json!({"op": "are_enabled"}),
             5 => json!({"op": "enable_and_hlt"}),
             6 => json!({"op": "arrive", "vector": rng.range(32, 255)}),
-            7 => json!({"op": "arrive_later", "vector": rng.range(32, 255), "after": rng.range(1, 400)}),
+            7 => json!({"op": "arrive_later", "vector": rng.range(32, 255), "after": rng.range(1, 24)}),
             _ => json!({"op": "work", "n": rng.range(1, 5)}),
         });
     }
@@ -84,6 +84,7 @@ fn mark(id: u32) {
     // bit 31 records the simulated interrupt flag at the marker
     let c = &mut world().cpu;
     hold(c, true);
+    c.tick();
     c.trace.push(Ev::Mark(id | ((c.iflag as u32) << 31)));
     hold(c, false);
 }
@@ -101,6 +102,8 @@ fn work(n: u32) -> u32 {
     let mut x = 1u32;
     for i in 0..n {
         x = core::hint::black_box(x.wrapping_mul(31).wrapping_add(i));
+        // a yield point: one unit of logical time
+        world().cpu.tick();
     }
     x
 }
@@ -258,6 +261,8 @@ pub fn run(rp: &Replay, st: &mut Stats) -> Option<Violation> {
             return Some(viol(&["C17"], "no-progress", i, format!("more than {} instructions single-stepped in one action", w.mon_budget)));
         }
         let trace: Vec<Ev> = w.cpu.trace.clone();
+        st.fold_trace(&trace);
+        st.fold(w.cpu.boundary);
         model.seq.clear();
         model.are_enabled.clear();
         model.iflag = if_before;
@@ -305,7 +310,9 @@ pub fn run(rp: &Replay, st: &mut Stats) -> Option<Violation> {
             let core: Vec<&Ev> = trace.iter().filter(|e| !matches!(e, Ev::Mark(_))).collect();
             let pos_sti = core.iter().position(|e| matches!(e, Ev::Sti));
             let pos_hlt = core.iter().position(|e| matches!(e, Ev::Hlt));
-            if let (Some(s), Some(h)) = (pos_sti, pos_hlt) {
+            // with IF=1 before the call STI has no shadow and an interrupt arriving in between is
+            // taken there on real hardware too; the guarantee is about the IF=0 case
+            if let (Some(s), Some(h), false) = (pos_sti, pos_hlt, if_before) {
                 if let Some(d) = core[s..h].iter().find(|e| matches!(e, Ev::Deliver { .. })) {
                     return Some(viol(&["C17"], "window-before-hlt", i, format!("an interrupt ({d:?}) was taken between sti and hlt: {trace:?}")));
                 }
